@@ -135,15 +135,18 @@ def _record_int(digits: Sequence[int], dims: Sequence[int]) -> int:
     return v
 
 
-def eval_condition(cond, records: Dict[str, tuple], record_dims: Dict[str, tuple]) -> bool:
+def eval_condition(cond, records: Dict[str, tuple], record_dims: Dict[str, tuple], name_of=None) -> bool:
+    """`name_of` translates a key as written in a sub-circuit into the key it records / reads under."""
+    if name_of is None:
+        name_of = lambda k: k     # noqa: E731
     if isinstance(cond, cirq.KeyCondition):
-        key = _key_str(cond.key)
+        key = name_of(_key_str(cond.key))
         if key not in records:
             raise Unsupported(f"condition on unmeasured key {key}")
         inst = records[key][cond.index]
         return any(int(b) != 0 for b in inst)
     if isinstance(cond, cirq.BitMaskKeyCondition):
-        key = _key_str(cond.key)
+        key = name_of(_key_str(cond.key))
         inst = records[key][cond.index]
         value = _record_int(inst, record_dims[key])
         if cond.bitmask is not None:
@@ -156,7 +159,7 @@ def eval_condition(cond, records: Dict[str, tuple], record_dims: Dict[str, tuple
         subs = {}
         for node in sympy.preorder_traversal(cond.expr):
             if isinstance(node, sympy.Indexed):
-                name = str(node.base)
+                name = name_of(str(node.base))
                 if name not in records:
                     raise Unsupported(f"sympy condition on unmeasured key {name}")
                 idx = int(node.indices[0])
@@ -165,7 +168,7 @@ def eval_condition(cond, records: Dict[str, tuple], record_dims: Dict[str, tuple
         subs2 = {}
         for sym in expr.free_symbols:
             if isinstance(sym, sympy.Symbol) and not isinstance(sym, sympy.Indexed):
-                name = str(sym)
+                name = name_of(str(sym))
                 if name not in records:
                     raise Unsupported(f"sympy condition on unmeasured key {name}")
                 subs2[sym] = _record_int(records[name][-1], record_dims[name])
@@ -250,13 +253,16 @@ class QRef:
             return self._step_branch(b, op.sub_operation)
         # classical control: all conditions must hold
         if isinstance(op, cirq.ClassicallyControlledOperation):
-            if key_of is not None:
-                raise Unsupported("classical control inside a sub-circuit")
             conds = op.classical_controls
-            ok = all(eval_condition(c, b.records, self.record_dims) for c in conds)
+            # inside a sub-circuit a control key means the sub-circuit's own measurement of that key (in this
+            # repetition, under the mapped and scoped name) if there is one so far, else the enclosing
+            # scope's key (measurement_key_map still applies to the name)
+            name_of = None if key_of is None else (
+                lambda k: key_of(k) if k in key_of.measured else key_of.outer(k))
+            ok = all(eval_condition(c, b.records, self.record_dims, name_of) for c in conds)
             if not ok:
                 return [b]
-            return self._step_branch(b, op.without_classical_controls())
+            return self._step_branch(b, op.without_classical_controls(), qmap, key_of)
         untagged = op.untagged
         if isinstance(untagged, cirq.CircuitOperation):
             if key_of is not None:
@@ -341,12 +347,17 @@ class QRef:
             def key_of(k, prefix=prefix):
                 return ":".join(prefix + (kmap.get(k, k),))
 
+            key_of.measured = set()                 # local keys measured so far in this repetition
+            key_of.outer = lambda k: ":".join(parent + (kmap.get(k, k),))
             for moment in co.circuit:
                 for sop in moment.operations:
                     nxt: List[Branch] = []
                     for br in branches:
                         nxt.extend(self._step_branch(br, sop, qmap=qmap, key_of=key_of))
                     branches = nxt
+                for sop in moment.operations:
+                    if cirq.is_measurement(sop):
+                        key_of.measured.update(_key_str(k) for k in cirq.measurement_key_objs(sop))
         return branches
 
     def _measurement_gate(self, b: Branch, gate: cirq.MeasurementGate, targets: List[int],
